@@ -119,6 +119,10 @@ func init() {
 			in.Reqs[0].Amount = "1000"
 		}
 		in.SchedSeed = R.Int63n(1 << 30)
+		if R.Intn(4) == 0 {
+			// `a` takes its transaction id and pauses; `b` runs to its commit; `a` goes on
+			return r.directed(in, []planStep{{"a", "insertTx"}, {"b", ""}, {"a", ""}, {"c", ""}})
+		}
 		return runScenario(r, in, true)
 	}
 
@@ -264,6 +268,17 @@ func init() {
 		in.Reqs = append(in.Reqs, Req{Task: "z", Kind: "blocks", Ledger: "l", BlockSize: size})
 		in.Post = []Req{{Task: "p1", Kind: "blocks", Ledger: "l", BlockSize: size}}
 		in.SchedSeed = R.Int63n(1 << 30)
-		return runScenario(r, in, false)
+		// explored like a two-writer scenario: the decisions between the writers' log inserts /
+		// commits and the block builder's call are what matters
+		if R.Intn(3) == 0 {
+			// the schedule under suspicion: `a` inserts its log (lower id) and pauses, `b` inserts and
+			// commits (higher id), the block builder runs, `a` commits
+			return r.directed(in, []planStep{{"a", "insertLog"}, {"b", ""}, {"z", ""}, {"a", ""}, {"c", ""}})
+		}
+		cap := 12
+		if r.Wide() {
+			cap = 60
+		}
+		return r.explore(in, cap)
 	}
 }
